@@ -1,7 +1,10 @@
 //@ kernel follow serves=C13
 //@ include specenv.v.rs
-//@ item src/parser.rs impl Parser members=peek_expect,eat,eat_expect,get_empty,get_output_els,get_output
+//@ item src/parser.rs impl Parser members=peek_expect,eat,eat_expect,get_empty,get_output_els,get_output,get_input_els,get_input,get_env,get_context,get_except_block,rule
+//@ item src/rule.rs impl Rule members=new
 //@ stub Parser::get_output_els
+//@ stub Parser::get_input_els
+//@ stub Parser::get_env
 
 //@ pre
 //@ end
@@ -32,8 +35,8 @@ spec fn cursor_ok(p: Parser) -> bool { p.pos < p.token_list@.len() && p.token_li
 //@ contract Parser::get_output_els ret=r
     // ASSUMED about the opaque element parser: it leaves the cursor on a token of the list and does not touch the list
     ensures final(self).pos < final(self).token_list@.len() && final(self).token_list == old(self).token_list,
-        // ASSUMED (read off the code: DeleteErr / MetathErr are constructed in get_output only)
-        r matches Err(e) ==> !(e is DeleteErr) && !(e is MetathErr),
+        // ASSUMED (read off the code: DeleteErr / MetathErr are constructed in get_output only, ExpectedArrow / ExpectedEndLine in rule only)
+        r matches Err(e) ==> !(e is DeleteErr) && !(e is MetathErr) && !(e is ExpectedEndLine) && !(e is ExpectedArrow),
 //@ end
 //@ attr Parser::get_output
 #[verifier::exec_allows_no_decreases_clause]
@@ -47,6 +50,8 @@ spec fn cursor_ok(p: Parser) -> bool { p.pos < p.token_list@.len() && p.token_li
         // `//` is the documented synonym of `|`: wherever `|` may follow, `//` may
         /*#follow.a_double_slash_may_follow_a_deletion_output C13*/ r matches Err(RuleSyntaxError::DeleteErr(t)) ==> t.kind != TokenKind::DubSlash,
         /*#follow.a_double_slash_may_follow_a_metathesis_output C13*/ r matches Err(RuleSyntaxError::MetathErr(t)) ==> t.kind != TokenKind::DubSlash,
+        cursor_loose(*final(self)) && final(self).token_list == old(self).token_list,
+        r matches Err(e) ==> !(e is ExpectedEndLine) && !(e is ExpectedArrow),
 //@ end
 //@ loop Parser::get_output 0
     invariant self.pos < self.token_list@.len() || self.curr_tkn.kind == TokenKind::Eol, self.token_list == old(self).token_list,
@@ -54,4 +59,99 @@ spec fn cursor_ok(p: Parser) -> bool { p.pos < p.token_list@.len() && p.token_li
 //@ end
 //@ proof_start Parser::get_output
     axiom_token_clone();
+//@ end
+
+// ---------------------------------------------------------------------------------------------------------------
+// the arrow and the end of the rule: Parser::get_input, Parser::rule, get_context, get_except_block (real code);
+// the element parsers get_input_els and the environment parser get_env are opaque
+//@ post
+/// the environment grammar behind `/`, `|` and `//` is opaque: an arbitrary function of the parser state
+pub uninterp spec fn env_spec(p: Parser) -> (Result<Vec<Item>, RuleSyntaxError>, Parser);
+/// the input element grammar is opaque
+pub uninterp spec fn inels_spec(p: Parser) -> (Result<Vec<Item>, RuleSyntaxError>, Parser);
+spec fn is_arrow(k: TokenKind) -> bool { k == TokenKind::Arrow || k == TokenKind::GreaterThan }
+spec fn ends_line(k: TokenKind) -> bool { k == TokenKind::Eol || k == TokenKind::Comment }
+/// the cursor is on a token of the list and `curr_tkn` is that token; the list ends with the lexer's end-of-line token
+/// (so a token that is not Eol is never the last one) -- the state in which the lexer hands a line to Parser::rule
+spec fn synced(p: Parser) -> bool {
+    &&& p.pos < p.token_list@.len() && p.token_list@.len() < usize::MAX - 2
+    &&& p.curr_tkn == p.token_list@[p.pos as int]
+    &&& p.token_list@[p.token_list@.len() - 1].kind == TokenKind::Eol
+}
+spec fn cursor_loose(p: Parser) -> bool {
+    (p.pos < p.token_list@.len() || p.curr_tkn.kind == TokenKind::Eol) && p.pos <= p.token_list@.len() && p.token_list@.len() < usize::MAX - 2
+}
+//@ end
+//@ contract Rule::new ret=r
+    ensures r.input == i && r.output == o && r.context == c && r.except == e,
+//@ end
+//@ contract Parser::get_input_els ret=r
+    ensures (r, *final(self)) == inels_spec(*old(self)),
+        // ASSUMED about the opaque element parser: it leaves the cursor on a token of the list and does not touch the list
+        final(self).pos < final(self).token_list@.len() && final(self).token_list == old(self).token_list,
+        // ASSUMED (read off the code: InsertErr is constructed in get_input only, ExpectedArrow / ExpectedEndLine in rule only)
+        r matches Err(e) ==> !(e is InsertErr) && !(e is ExpectedEndLine) && !(e is ExpectedArrow),
+        // ASSUMED (lexer + element parser): when no input element is found the cursor is on a token the lexer made, and the
+        // lexer never makes a token with an empty spelling -- this is what keeps `value.chars().next().unwrap()` from panicking
+        r matches Ok(v) && v@.len() == 0 ==> final(self).curr_tkn.value@.len() > 0,
+        // ASSUMED: it moves the cursor with advance() only, so `curr_tkn` stays the token under the cursor
+        (r is Ok && synced(*old(self))) ==> synced(*final(self)),
+//@ end
+//@ contract Parser::get_env ret=r
+    ensures (r, *final(self)) == env_spec(*old(self)),
+        // ASSUMED about the opaque environment parser: cursor stays inside the list (or on the synthetic end of line), list untouched
+        cursor_loose(*final(self)) && final(self).token_list == old(self).token_list,
+        // ASSUMED (read off the code: ExpectedArrow / ExpectedEndLine are constructed in Parser::rule only)
+        r matches Err(e) ==> !(e is ExpectedEndLine) && !(e is ExpectedArrow),
+//@ end
+//@ contract Parser::get_context ret=r
+    requires cursor_loose(*old(self)),
+    ensures
+        /*#follow.a_slash_opens_the_context C13*/ old(self).curr_tkn.kind == TokenKind::Slash ==> (exists|p: Parser| advanced(*old(self), p) && (r, *final(self)) == #[trigger] env_spec(p)),
+        old(self).curr_tkn.kind != TokenKind::Slash ==> (r matches Ok(v) && v@.len() == 0 && *final(self) == *old(self)),
+        cursor_loose(*final(self)) && final(self).token_list == old(self).token_list,
+        r matches Err(e) ==> !(e is ExpectedEndLine) && !(e is ExpectedArrow),
+//@ end
+//@ contract Parser::get_except_block ret=r
+    requires cursor_loose(*old(self)),
+    ensures
+        // `|` and `//` are the documented synonyms: both open the exception block, and the block is the same function of what follows
+        /*#follow.pipe_and_double_slash_open_the_same_exception_block C13*/ (old(self).curr_tkn.kind == TokenKind::Pipe || old(self).curr_tkn.kind == TokenKind::DubSlash)
+            ==> (exists|p: Parser| advanced(*old(self), p) && (r, *final(self)) == #[trigger] env_spec(p)),
+        !(old(self).curr_tkn.kind == TokenKind::Pipe || old(self).curr_tkn.kind == TokenKind::DubSlash) ==> (r matches Ok(v) && v@.len() == 0 && *final(self) == *old(self)),
+        cursor_loose(*final(self)) && final(self).token_list == old(self).token_list,
+        r matches Err(e) ==> !(e is ExpectedEndLine) && !(e is ExpectedArrow),
+//@ end
+//@ attr Parser::get_input
+#[verifier::exec_allows_no_decreases_clause]
+#[verifier::loop_isolation(false)]
+//@ end
+//@ contract Parser::get_input ret=r
+    requires synced(*old(self)),
+    ensures
+        // `>`, `=>` and `->` are the documented synonyms of the arrow: whichever is written may follow an insertion input
+        /*#follow.either_arrow_may_follow_an_insertion_input C13*/ r matches Err(RuleSyntaxError::InsertErr(t)) ==> !is_arrow(t.kind) && t.kind != TokenKind::Comma,
+        r is Ok ==> synced(*final(self)),
+        final(self).token_list == old(self).token_list,
+        r matches Err(e) ==> !(e is ExpectedEndLine) && !(e is ExpectedArrow),
+//@ end
+//@ loop Parser::get_input 0
+    invariant synced(*self), self.token_list == old(self).token_list,
+//@ end
+//@ proof_start Parser::get_input
+    axiom_token_clone();
+//@ end
+//@ contract Parser::rule ret=r
+    requires synced(*old(self)),
+    ensures
+        /*#follow.either_arrow_is_the_arrow C13*/ r matches Err(RuleSyntaxError::ExpectedArrow(t)) ==> !is_arrow(t.kind),
+        // a trailing comment ends a rule wherever the end of the line does
+        /*#follow.a_comment_ends_a_rule_like_the_end_of_line C13*/ r matches Err(RuleSyntaxError::ExpectedEndLine(t)) ==> !ends_line(t.kind),
+//@ end
+//@ proof_start Parser::rule
+    axiom_token_clone();
+//@ end
+//@ proof_at Parser::rule 0 return Err(RuleSyntaxError::ExpectedEndLine
+    // `/`, `|` and `//` may all follow the output: none of them is reported as "expected end of line" before it has been read
+    /*#follow.slash_pipe_and_double_slash_may_follow_the_output C13*/ assert(self.curr_tkn.kind != TokenKind::Slash && self.curr_tkn.kind != TokenKind::Pipe && self.curr_tkn.kind != TokenKind::DubSlash);
 //@ end
